@@ -212,4 +212,16 @@ theorem C05_no_blocking_call_under_loop_lock :
         a.held.any Proofs.C15.loopLocks.contains)) = [] :=
   Proofs.C15.C15_blocking_calls_hold_no_loop_lock
 
+/-- **Bounded transport buffering cannot stall a receive loop** (code-level
+    premise, regenerated from the sources on every run): no function that can
+    run on a receive-loop goroutine performs a carrier `Send` or invokes a
+    callback that does — close, cancel and rejection frames are sent from
+    goroutines of their own, window updates by the reading application — so the
+    loops always return to `Recv` and keep draining the carrier however full
+    the opposite direction is. -/
+theorem C05_receive_loops_never_send :
+    Proofs.C15.loopSendViolations TunnelModel.Generated.accessTable = [] ∧
+    Proofs.C15.loopRootIds.length = Proofs.C15.loopRoots.length :=
+  Proofs.C15.C15_receive_loops_never_send
+
 end Proofs.C05
